@@ -136,6 +136,9 @@ func fuzzHandler(f *testing.F, cmd string) {
 		f.Add(byte(1), s)
 	}
 	f.Fuzz(func(t *testing.T, flags byte, pl []byte) {
+		if wedged.Load() {
+			t.Skip("an earlier call never returned or left a global mutex locked")
+		}
 		fuzzSetup()
 		if len(pl) > 200000 {
 			return
@@ -188,6 +191,9 @@ func FuzzRunStream(f *testing.F) {
 	f.Add(byte(0), append(frame(e, &ping, ping.payload()), frame(e, &inv, inv.payload())...))
 	f.Add(byte(1), frame(e, &ping, ping.payload()))
 	f.Fuzz(func(t *testing.T, flags byte, stream []byte) {
+		if wedged.Load() {
+			t.Skip("an earlier call never returned or left a global mutex locked")
+		}
 		fuzzSetup()
 		if len(stream) > 100000 {
 			return
@@ -206,6 +212,9 @@ func fuzzLib(f *testing.F, kind string, seeds [][]byte) {
 		f.Add(s)
 	}
 	f.Fuzz(func(t *testing.T, data []byte) {
+		if wedged.Load() {
+			t.Skip("an earlier call never returned or left a global mutex locked")
+		}
 		fuzzSetup()
 		if len(data) > 200000 {
 			return
@@ -236,6 +245,9 @@ func FuzzLibScript(f *testing.F) {
 	f.Add([]byte{0x76, 0xa9, 0x14, 1, 2, 3, 4, 5, 6, 7, 8, 9, 10, 11, 12, 13, 14, 15, 16, 17, 18, 19, 20, 0x88, 0xac}, []byte{0x01, 0x02, 0x21, 0x02}, uint32(3))
 	f.Add(opTrueP2SH, []byte{0x01, 0x51}, uint32(5))
 	f.Fuzz(func(t *testing.T, pk, ss []byte, fl uint32) {
+		if wedged.Load() {
+			t.Skip("an earlier call never returned or left a global mutex locked")
+		}
 		fuzzSetup()
 		if len(pk) > 12000 || len(ss) > 12000 {
 			return
